@@ -32,7 +32,14 @@ RULE = ('datasets of every convention with tagged variables (floats with missing
         'values, a variable added on a grid, a variable deleted), made before (a) or between (a) and (b); every '
         'selection after the edit is compared with the model and with the oracle on the dataset as it is at the time of '
         'the call, and with a convention made afresh for the same content. The list of points goes through '
-        'extract_points or Convention.select_points.')
+        'extract_points or Convention.select_points. (e) 60% of the datasets (chosen by the content of the recipe, '
+        'independent of (d)) are asked 2-5 read-only questions through the same long-lived convention before the index '
+        'selections, between index and point selections, or both: wind_index / unravel_index of one, two or all '
+        'positions of ANY grid of the dataset (named, or left out for the default grid), ravel_index, grid_shape / '
+        'grid_size, get_grid_kind, ravel + wind of a variable, select_index / selector_for_index on any grid. The '
+        'answers are not judged; every selection after them is judged as on a dataset nobody asked anything of: '
+        'select_point, extract_points / select_points and extract_dataframe return exactly the face variables with the '
+        'stored values of the brute-force cell of each point, row by row.')
 TRUSTED = ['xarray vectorised isel, Dataset.merge(join=inner/outer), pandas DataFrame.to_xarray']
 ASSUMPTIONS = ['only data variables are compared; coordinate variables of the result are xarray bookkeeping',
                'a drop/fill request in which no point hits is refused by the code (nothing to select); modelled as an error']
@@ -98,11 +105,64 @@ def examine(ctx, recipe, items) -> None:
         if hist['at'] == 'start':
             H.apply_edits(built, hist)
             same_as_fresh(ctx, recipe, built, c)
+    asks = recipe.get('queries')
+    if asks:
+        ctx.count(f"questions:{asks['at']}")
+        ctx.nontrivial((str(recipe), 'questions'))
+        if asks['at'] in ('start', 'both'):
+            built.extra.setdefault('asked', []).extend(H.ask(built, c, asks, 'start'))
     examine_indexes(ctx, recipe, built, c, items)
     if hist and hist['at'] == 'mid':
         H.apply_edits(built, hist)
         same_as_fresh(ctx, recipe, built, c)
+    if asks and asks['at'] in ('mid', 'both'):
+        built.extra.setdefault('asked', []).extend(H.ask(built, c, asks, 'mid'))
     examine_points(ctx, recipe, built, c, items)
+
+
+def after(built) -> str:
+    """for messages: the questions the convention was asked before this selection"""
+    asked = built.extra.get('asked')
+    return f' (asked before, on the same convention: {"; ".join(asked)[:400]})' if asked else ''
+
+
+def judge_rows(ctx, built, res, pdim, rows, hits, desc, api) -> None:
+    """Direct oracle for a list / table of points: `res` has one entry along `pdim` per original position in `rows`
+    (in that order); it holds exactly the variables of the face grid, and entry k of each is the stored slice of the
+    brute-force cell of point rows[k], every other dimension intact.  Rows that miss (policy fill) are judged by the
+    caller."""
+    ds = built.ds
+    gd = built.grids['face'][0]
+    face_vars = [nm for nm, info in built.vars.items() if info.kind == 'face']
+    got_vars = [str(v) for v in res.data_vars]
+    ctx.evaluated()
+    if sorted(got_vars) != sorted(face_vars):
+        ctx.oracle_fail('extract-wrong-variables', {**desc, 'api': api},
+                        f'{api} returned variables {got_vars}, expected exactly those on the face grid: {face_vars}' + after(built))
+        return
+    for nm in face_vars:
+        da = ds[nm]
+        got_da = res[nm]
+        if pdim not in got_da.dims or got_da.sizes[pdim] != len(rows):
+            ctx.oracle_fail('extract-wrong-rows', {**desc, 'api': api, 'var': nm},
+                            f'{api}: {nm} has dims {dict(got_da.sizes)}, expected {len(rows)} entries along {pdim}' + after(built))
+            continue
+        other = [d for d in da.dims if d not in gd]
+        for k, r in enumerate(rows):
+            if hits[r] == '-':
+                continue
+            cc = [int(v) for v in hits[r].split(':')[1].split(',')]
+            want = da.isel(dict(zip(gd, cc)))
+            got = got_da.isel({pdim: k})
+            if set(got.dims) != set(other):
+                ctx.oracle_fail('extract-other-dimensions-changed', {**desc, 'api': api, 'var': nm},
+                                f'{api}: row {k} of {nm} has dims {got.dims}, the stored slice has {want.dims}' + after(built))
+                break
+            w, g = util.as_num(want.values), util.as_num(got.transpose(*other).values)
+            if w.shape != g.shape or not np.array_equal(w, g, equal_nan=True):
+                ctx.oracle_fail('extract-wrong-values', {**desc, 'api': api, 'var': nm, 'row': k},
+                                f'{api}: row {k} (point {r}) of {nm} is {g.tolist()}, cell {cc} stores {w.tolist()}' + after(built))
+                break
 
 
 def same_as_fresh(ctx, recipe, built, c) -> None:
@@ -326,23 +386,29 @@ def examine_points(ctx, recipe, built, c, items) -> None:
                     ctx.oracle_fail('select-point-accepts-miss', {**desc, 'point': [str(x), str(y)]}, 'select_point returned data for a point outside every cell')
             elif sp is None or isinstance(sp, Exception):
                 if any(info.kind == 'face' for info in built.vars.values()):
-                    ctx.oracle_fail('select-point-raised', {**desc, 'point': [str(x), str(y)]}, f'select_point raised for a point inside cell {h}')
+                    ctx.oracle_fail('select-point-raised', {**desc, 'point': [str(x), str(y)]}, f'select_point raised for a point inside cell {h}' + after(built))
             else:
                 cc = [int(v) for v in h.split(':')[1].split(',')]
                 gd = built.grids['face'][0]
+                face_vars = sorted(nm for nm, info in built.vars.items() if info.kind == 'face')
+                if sorted(str(v) for v in sp.data_vars) != face_vars:
+                    ctx.oracle_fail('select-point-wrong-variables', {**desc, 'point': [str(x), str(y)]},
+                                    f'select_point in cell {h} returned variables {sorted(str(v) for v in sp.data_vars)}, '
+                                    f'expected exactly those on the face grid: {face_vars}' + after(built))
                 for nm, info in built.vars.items():
                     if info.kind == 'face' and nm in sp:
                         want = ds[nm].isel(dict(zip(gd, cc)))
                         if tuple(sp[nm].dims) != tuple(want.dims) or not np.array_equal(
                                 util.as_num(sp[nm].values), util.as_num(want.values), equal_nan=True):
                             ctx.oracle_fail('select-point-wrong-values', {**desc, 'point': [str(x), str(y)], 'var': nm},
-                                            f'select_point gives {np.asarray(sp[nm].values).tolist()} (dims {sp[nm].dims}), cell {cc} stores {np.asarray(want.values).tolist()} (dims {want.dims})')
+                                            f'select_point gives {np.asarray(sp[nm].values).tolist()} (dims {sp[nm].dims}), cell {cc} stores {np.asarray(want.values).tolist()} (dims {want.dims})' + after(built))
         via_convention = rng.random() < 0.4          # the list of points through Convention.select_points
         # the point dimension left to its default (the first unused of point, point_0, ...) on every other such case
         default_pdim = pdim == 'point' and (len(spts) + n_hit) % 2 == 0
         if default_pdim:
             pdim = unused_name(ds, 'point')
             ctx.count('extract:point-dimension-left-out')
+        api = 'Convention.select_points' if via_convention else 'extract_points'
         for policy in ('error', 'drop'):
             line = f'extract {gs} {geom} {pdim} {policy} {hit_s} {dsvars}'
             try:
@@ -368,16 +434,23 @@ def examine_points(ctx, recipe, built, c, items) -> None:
                 if missing:
                     if not isinstance(res, point_extraction.NonIntersectingPoints) or [int(i) for i in res.indexes] != missing:
                         ctx.oracle_fail('policy-error-wrong-points', {**desc, 'policy': policy}, f'points {missing} miss the model; outcome was {out[:80]}')
-                elif not hasattr(res, 'data_vars') and any(info.kind == 'face' for info in built.vars.values()):
-                    ctx.oracle_fail('policy-error-raised-without-miss', {**desc, 'policy': policy}, f'every point hits but outcome was {out[:80]}')
+                elif not hasattr(res, 'data_vars'):
+                    if any(info.kind == 'face' for info in built.vars.values()):
+                        ctx.oracle_fail('policy-error-raised-without-miss', {**desc, 'policy': policy}, f'every point hits but outcome was {out[:80]}' + after(built))
+                else:
+                    judge_rows(ctx, built, res, pdim, list(range(len(hits))), hits, {**desc, 'policy': policy}, api)
             elif n_hit > 0 and any(info.kind == 'face' for info in built.vars.values()):
                 if not hasattr(res, 'data_vars'):
-                    ctx.oracle_fail('policy-drop-raised', {**desc, 'policy': policy}, f'drop policy raised: {out[:80]}')
+                    ctx.oracle_fail('policy-drop-raised', {**desc, 'policy': policy}, f'drop policy raised: {out[:80]}' + after(built))
                 else:
-                    labels = [int(v) for v in res[pdim].values]
                     want = [i for i, h in enumerate(hits) if h != '-']
+                    try:
+                        labels = [int(v) for v in res[pdim].values]
+                    except Exception:  # noqa: BLE001
+                        labels = None
                     if labels != want:
                         ctx.oracle_fail('policy-drop-wrong-labels', {**desc, 'policy': policy}, f'labels {labels}, expected original positions {want}')
+                    judge_rows(ctx, built, res, pdim, want, hits, {**desc, 'policy': policy}, api)
         # dataframe
         df = pandas.DataFrame({'name': [f'p{i}' for i in range(len(pts))],
                                'lon': [float(x) for x, _ in pts], 'lat': [float(y) for _, y in pts]})
@@ -405,6 +478,8 @@ def examine_points(ctx, recipe, built, c, items) -> None:
                 want = list(range(len(pts))) if policy == 'fill' else [i for i, h in enumerate(hits) if h != '-']
                 if names_col != [f'p{i}' for i in want]:
                     ctx.oracle_fail('dataframe-columns-not-carried', {**desc, 'policy': policy}, f'name column {names_col}, expected rows {want}')
+                if any(info.kind == 'face' for info in built.vars.values()):
+                    judge_rows(ctx, built, res2, 'point', want, hits, {**desc, 'policy': 'df-' + policy}, 'extract_dataframe')
                 if policy == 'fill':
                     for nm in res2.data_vars:
                         for i, h in enumerate(hits):
@@ -427,6 +502,10 @@ def make_recipe(ctx, k):
     if rng.random() < 0.4:
         # a history of calls on the one dataset object: select, edit the dataset in place, select again
         recipe['history'] = H.random_history(rng, recipe)
+    # read-only questions asked of the long-lived convention between the selections (no draw from the random stream)
+    asks = H.derive_queries(recipe)
+    if asks:
+        recipe['queries'] = asks
     return recipe
 
 
